@@ -38,16 +38,34 @@ RULE = ("exhaustive: (a) every matrix with r<=R rows x c<=C columns over a 2- or
         "distinct values per run. non-trivial = at least two rows and some row with at least two runs (iv: an interval "
         "strictly inside the row)")
 BOUNDS = {
-    "quick": {"matrix": "r<=3, c<=4 alphabet 2; r<=2, c<=3 (and 1x4) alphabet 3", "ragged": "<=3 rows len<=3 alphabet 2; "
-              "<=2 rows len<=4 alphabet 2; <=2 rows len<=3 alphabet 3", "intervals": "n<=3, row_len<=5",
-              "col_slices": "bounds {None,-5..5} x steps {None,1,2,3,-1,-2,-3} on <=2 rows of len<=3 and single rows of len 4 "
-              "(every run composition), 3 rows of len<=2",
-              "dtypes": ["int64", "int8", "uint8", "float64", "bool"]},
-    "thorough": {"matrix": "r<=3, c<=4 alphabet 2; r<=2, c<=4 alphabet 3", "ragged": "<=3 rows len<=4 alphabet 2; <=3 rows "
-                 "len<=3 alphabet 3 (column reductions), <=2 rows len<=4 alphabet 3", "intervals": "n<=3, row_len<=5",
-                 "col_slices": "bounds {None,-5..5} x steps {None,+-1,+-2,+-3,+-4} on <=3 rows of len<=4 (every run composition)",
-                 "random": "40000 cases: <=5 rows, len<=8, alphabet 3, random operation / selector / operand",
-                 "dtypes": ["int64", "int8", "uint8", "float64", "bool"]},
+    "quick": {
+        "whole-array ops (decode/len/shape/size, column reductions)":
+            "matrices r<=3 x c<=4 alphabet 2, r<=2 x c<=3 and 1x4 alphabet 3; ragged <=3 rows len<=3 alphabet 2, <=2 rows "
+            "len<=4 alphabet 2, <=2 rows len<=3 alphabet 3 (mrag, mean, np-routes on a sub-set)",
+        "row reductions": "matrices <=3x3 / 2x4 alphabet 2, <=2x2 / 1x4 alphabet 3; ragged 1 row len<=4 alphabet 3, 2 rows "
+                          "len<=2 alphabet 3, 2 rows len<=3 / 3 rows len<=2 alphabet 2",
+        "intervals": "every list of n<=3 intervals 0<=start<end<=row_len<=5 (n=3 only for row_len<=4)",
+        "row selectors": "every run composition: matrices up to 1x4, 2x3, 3x2; ragged 1 row len<=4, 2 rows len<=3, 3 rows "
+                         "len<=2; all valid ints, 36 slices, int lists (len<=1 all, some longer), int array, all masks",
+        "elements": "every (i, j) incl. negative on the same data",
+        "columns": "ragged variants: same data + 3 rows len<=3; every j valid in every selected row",
+        "col_slices": "ragged variants: bounds {None,-5..5} x steps {None,1,2,3,-1,-2,-3} on single rows len<=4; bounds "
+                      "{None,-4..4} on 2 rows len<=3 and 3 rows len<=2 (every run composition); reduced bounds with other "
+                      "row selectors; only slices of the stated kind",
+        "ufuncs": "<=4 cells or 3x2 / 3 rows len<=2 run compositions; negative/absolute(/logical_not/invert); subtract/less/"
+                  "multiply/add with python and numpy scalars and (n_rows,1) columns on both sides; operator route",
+        "concat": "pairs of arrays with <=2 rows, len<=2, alphabet 2",
+        "dtypes": ["int64", "int8", "uint8", "float64", "bool"]},
+    "thorough": {
+        "whole-array ops": "quick + matrices 2x4, 3x1, 3x2 alphabet 3; ragged 3 rows len<=4 alphabet 2, 2 rows len<=4 "
+                           "alphabet 3; column sum on 3 rows len<=3 alphabet 3",
+        "intervals": "n<=3, row_len<=5",
+        "row selectors": "quick data with 196 slices and all int lists of length<=2; + 2x4, 3x3 matrices and 2 rows "
+                         "len<=4, 3 rows len<=3 ragged",
+        "col_slices": "bounds {None,-5..5} x steps {None,+-1,+-2,+-3,+-4} on <=2 rows len<=4 and 3 rows len<=3 (every run "
+                      "composition); 3 rows len<=4 with bounds {None,-4,-1,0,2,4} x steps {None,-1}",
+        "random": "40000 cases: <=5 rows, len<=8, alphabet 3, random dtype / operation / selector / operand",
+        "dtypes": ["int64", "int8", "uint8", "float64", "bool"]},
 }
 
 TABLE = {"int64": [0, -1, 2], "int8": [0, -1, 2], "uint8": [0, 255, 2], "float64": [0.0, -0.5, 1.5], "bool": [False, True]}
@@ -428,6 +446,8 @@ def cases(tier, seed):
         yield mkiv(L, st, en, "basic", value=True)
     for L, st, en in interval_lists(2 if not thorough else 3, 3 if not thorough else 4):
         n = len(st)
+        if n == 3 and L == 4:
+            continue
         for i in range(-n, n):
             for j in range(-L, L):
                 yield mkiv(L, st, en, "elem", row=i, col=j)
@@ -564,7 +584,7 @@ def cases(tier, seed):
         if v not in RAGGED:
             continue
         n = len(rows)
-        for rs in multi_row_selectors(n, 1 if thorough else 0) + [{"ellipsis": 1}]:
+        for rs in multi_row_selectors(n, 1 if thorough and (v, json.dumps(rows)) in qsel_keys else 0) + [{"ellipsis": 1}]:
             _, sub = select_rows(rows, dec_index(rs))
             if not sub:
                 continue
@@ -587,7 +607,7 @@ def cases(tier, seed):
         m3 = {json.dumps(rg) for _, rg in main}
         for rg in comp_raggeds(3, 4):
             if json.dumps(rg) not in m3:
-                for c in _colslice_cases("rag", "int64", rg, full, [None, 2, -1, -3], [None, -4, -2, -1, 0, 1, 3, 4]):
+                for c in _colslice_cases("rag", "int64", rg, full, [None, -1], [None, -4, -1, 0, 2, 4]):
                     yield c
     else:
         main = [("rag", rg) for rg in comp_raggeds(1, 4)] + [("rag", rg) for rg in comp_raggeds(2, 3)] + \
@@ -602,14 +622,14 @@ def cases(tier, seed):
             continue
         n = len(rows)
         if v == "mrag":
-            for c in _colslice_cases(v, "int64", rows, full, steps, COL_BOUNDS if thorough else reduced_bounds):
+            for c in _colslice_cases(v, "int64", rows, full, COL_STEPS_Q, COL_BOUNDS[1:-1] if thorough else reduced_bounds):
                 yield c
         if thorough:
             if n == 3 and max(len(r) for r in rows) > 2:
                 continue
-            others = [0, -1, {"slice": [None, None, -1]}, {"slice": [1, None, None]}, {"list": [n - 1, 0]}, {"list": [0, 0]},
-                      {"mask": [True, False, True][:n]}, {"mask": [False, True, True][:n]}, {"ellipsis": 1}]
-            osteps, obounds = [None, 2, -1, -2], reduced_bounds
+            others = [0, -1, {"slice": [None, None, -1]}, {"list": [n - 1, 0]}, {"mask": [True, False, True][:n]},
+                      {"mask": [False, True, True][:n]}, {"ellipsis": 1}]
+            osteps, obounds = [None, 2, -1], [None, -3, -1, 0, 1, 2]
         else:
             if n == 1 and len(rows[0]) < 3:
                 continue
@@ -902,7 +922,8 @@ def check(case):
         exp = [r[cs] for r in sub]
         if kind == "row":
             exp = exp[0]
-        return _run(f"colslice:{_sel_sig(case['row'])},{_colslice_sig(sub, case['col'])}", case, exp, lambda: rl[rs, cs])
+        rsig = "introw" if kind == "row" else _sel_sig(case["row"])      # rl[i, a:b:s] is 1-D RunLengthArray slicing
+        return _run(f"colslice:{rsig},{_colslice_sig(sub, case['col'])}", case, exp, lambda: rl[rs, cs])
 
     if op == "rowred":
         nm, via = case["name"], case.get("via", "method")
@@ -966,6 +987,12 @@ def check(case):
             exp = [uf(a, o).tolist() for a, o in zip(arrs, per_row)]
         else:
             exp = [uf(o, a).tolist() for a, o in zip(arrs, per_row)]
+        if dt.kind in "iu" and dt.itemsize < 8 and "scalar" in operand and "sctype" not in operand and isinstance(other, int):
+            # numpy keeps the small integer dtype for a python int operand (and wraps); mark the cases where that matters
+            wide = [a.astype(np.int64) for a in arrs]
+            e64 = [(uf(a, other) if side == "right" else uf(other, a)).tolist() for a in wide]
+            if e64 != exp:
+                what += ":wrap"
         if case.get("via") == "operator":
             if case["ufunc"] != "subtract":
                 raise ValueError("operator route only for subtract")
